@@ -173,7 +173,7 @@ def c04():
                       "same, window shorter than required (pre-genesis padding never underflows)",
                       "chain Mainnet; %d real headers" % win,
                       env={"VH_CT": 3, "VH_WIN": win}, tag="_ct3_w%d" % win, est=400, cap_s=700 if "q" in tiers else 3600, mem_est_gb=12))
-    for win, tiers in [(1, "qt"), (2, "qt"), (3, "qt"), (30, "t"), (61, "t")]:
+    for win, tiers in [(1, "qt"), (2, "t"), (3, "t"), (30, "t"), (61, "t")]:
         obs.append(ob("c04::pre_genesis_padding", tiers, 64, "difficulty_data_to_vector: a short window is completed with simulated pre-genesis headers carrying the most recent header's difficulty, walking back from the oldest header by the most recent interval (saturating); result oldest-first; real headers kept",
                       "%d real headers with symbolic timestamps (strictly decreasing) and difficulties" % win, env={"VH_WIN": win}, tag="_w%d" % win, est=300, mem_est_gb=6, allow_unsat=["newest and oldest difficulty differ"] if win == 1 else []))
     for ct in (3, 0, 2, 1):
@@ -313,6 +313,13 @@ def c12():
         ob("c12::cut_through_2_1", "qt", 6, "same", "2 inputs + 1 output", est=420, unwindset={"memcmp.0": 40}, allow_unsat=["two pairs cut"], mem_est_gb=12),
         ob("c12::cut_through_2_2", "t", 6, "same", "2 inputs + 2 outputs", est=700, cap_s=3600, unwindset={"memcmp.0": 40}, mem_est_gb=14),
         ob("c12::cut_through_err_iff_duplicate_2_2", "qt", 6, "Err(CutThrough) iff a duplicate survives", "2 + 2", est=500, cap_s=750, unwindset={"memcmp.0": 40}, mem_est_gb=13),
+    ] + [
+        ob("c12::body_read_time_rules", "qt", 6, "TransactionBody::validate_read (run on every decoded transaction / block body) accepts a body exactly when " + what + "; each refusal carries its own error",
+           "shape " + shape + "; symbolic commitments (one byte each), kernel variants (plain / NRD), excesses, NRD flag; hashing under the deterministic mixer E4a", est=300, env={"VH_SHAPE": k}, tag="_s%d" % k,
+           loops={"memcmp": 70, "zeroize": 36, "memcpy": 120, "insertion_sort": 4}, mem_est_gb=10)
+        for k, shape, what in [(0, "1 input / 1 output / 1 kernel", "the input does not spend the body's own output (no cut-through left inside a body)"),
+                               (1, "0 inputs / 0 outputs / 2 kernels", "the kernels ascend strictly by hash and, with NRD on, two NRD kernels do not share an excess")]
+    ] + [
         ob("c12::aggregate_two_independent", "x", 6, "[ATTEMPT: did not finish in 3600 s] aggregate([a, b]) of two transactions that do not spend each other: kernels = union, inputs = union, offset = sum of offsets (model scalar group), independent of operand order",
            "two 1-input / 0-output / 1-kernel transactions with symbolic commitments, excesses, fees and offsets", est=900, cap_s=3600, loops={"memcmp": 70, "zeroize": 36, "memcpy": 120}, replay="model", mem_est_gb=14),
         ob("c12::deaggregate_known_subset_kernel_only", "x", 3, "[ATTEMPT: symbolic execution did not finish in 660 s at unwind 3 or 6; with a 2 h cap it exceeded 40 GB after 26 min] deaggregate(mk, [t]) for kernel-only transactions: the remainder holds exactly the kernel that is not t's, nothing else, and its offset is mk's offset minus t's in the (model) scalar group - also when either offset is zero",
